@@ -255,7 +255,7 @@ def run(ctx):
     # --- aliasing histories: the caller re-uses (and edits in place) the very objects it passed before ---------------
     # Every call must be judged on the *current* contents of its arguments: the result has to equal the result of the
     # same call made with fresh copies.
-    nhist = ctx.n(300, 30000)
+    nhist = ctx.n(300, 100000)
     for hi in range(nhist):
         n = rnd.randint(1, 8)
         w = [rnd.choice([0, 1, 2, 3, 0.5, 10]) for _ in range(n)]
